@@ -102,7 +102,7 @@ _STRATA = None
 def enabled_strata():
     global _STRATA
     if _STRATA is None:
-        mode = os.environ.get("VERIF_C19_STRATA", "auto")
+        mode = os.environ.get("VERIF_C19_STRATA", "all")
         if mode == "all":
             _STRATA = set(FINDING_STRATA.values())
         elif mode == "none":
@@ -964,13 +964,19 @@ def check_instance(J, ref, ds, case, L, font):
             bump("kerning_conflict_keys")
         if not ok:
             e = sorted(cands)[0]
+            neg_tie = bool(rounding and len(cands) == 1 and e < 0 and e.denominator == 2
+                           and V.fr(gots[0]) == V.otround(e) - 1)
+            if neg_tie:
+                # the statement only says "rounded": at an exact negative x.5 fontMath's kerning
+                # rounds away from zero (-49.5 -> -50) while outlines round half up (-49); both are
+                # roundings of the blend - admissible, counted
+                bump("kerning_negative_half_tie_away_from_zero")
+                continue
             J.viol("kerning_value", loc=loc, key=list(key), expected=[float(c) for c in sorted(cands)],
                    expected_exact=[str(c) for c in sorted(cands)], got=gots[0],
                    literal=key in got_kern, at_master=strict_k, rounded=rounding,
                    mixed_half_exception_paths=_mixed_paths(ref, exp_key_origin[key]),
-                   negative_half_tie=bool(rounding and len(cands) == 1 and e < 0
-                                          and e.denominator == 2
-                                          and V.fr(gots[0]) == V.otround(e) - 1))
+                   negative_half_tie=False)
         elif rounding and any(e.denominator == 2 and e < 0 for e in cands):
             bump("kerning_negative_half_ties_ok")
 
